@@ -74,7 +74,7 @@ def _env(seed, tier):
     return e
 
 
-def run_suites(prefixes, repo, tier='quick', seed=0, timeout_s=None):
+def _run_suites_unlocked(prefixes, repo, tier='quick', seed=0, timeout_s=None):
     """runs every #[test] whose name starts with one of `prefixes` inside the verif_native modules
     (one retry if the run hits its time limit: a hang must not turn into a verdict)"""
     timeout_s = timeout_s or (300 if tier == 'quick' else 1500)
@@ -108,6 +108,10 @@ def _run_suites(prefixes, repo, tier, seed, timeout_s):
         f.write(out)
     res['wall_s'] = round(time.time() - t0, 1)
     killed = re.search(r'\(signal: (\d+), (SIG\w+)', out)
+    if not killed and 'test result' not in out and re.search(r'(?m)^running \d+ tests?', out):
+        # the test binary started and then ended without libtest's summary: the code under test ended the process
+        # (std::process::exit / abort inside the real code) -- the suites that did not report DONE are unfinished
+        killed = re.search(r"\((exit status): (\d+)\)", out)
     if re.search(r'(?m)^error(\[E\d+\])?:', out) and 'test result' not in out and not killed:
         res['reason'] = 'native harness does not compile against this tree: ' + '; '.join(re.findall(r'(?m)^error.*$', out)[:3])
         return res
@@ -125,7 +129,7 @@ def _run_suites(prefixes, repo, tier, seed, timeout_s):
         except Exception:
             names = []
         done0 = set(m.group(1) for m in re.finditer(r'NATIVE-DONE suite=(\S+)', out))
-        res['killed'] = {'signal': killed.group(2), 'unfinished': [n for n in names if n not in done0]}
+        res['killed'] = {'signal': (killed.group(2) if killed.group(1).isdigit() else 'exit status ' + killed.group(2)), 'unfinished': [n for n in names if n not in done0]}
     # tests that died without a DONE line (panic inside the real code, process::exit, abort)
     ran = set(re.findall(r'(?m)^test \S*verif_native::(\S+) \.\.\. (?:ok|FAILED)', out))
     failed = set(re.findall(r'(?m)^test \S*verif_native::(\S+) \.\.\. FAILED', out))
@@ -156,6 +160,26 @@ def warm(repo='/repo'):
     cmd = ['cargo', 'test', '--offline', '--bin', 'rusty-blockparser', '--no-run']
     p = subprocess.run(cmd, cwd=NSRC, env=_env(0, 'quick'), capture_output=True, text=True, timeout=1800)
     return p.returncode
+
+
+
+class _lane_lock:
+    """one run of this lane at a time (several checks may be started in parallel; they share the scratch crate)"""
+    def __enter__(self):
+        import fcntl
+        os.makedirs(os.path.join(VERIF, 'build'), exist_ok=True)
+        self.f = open(os.path.join(VERIF, 'build', '.native.lock'), 'w')
+        fcntl.flock(self.f, fcntl.LOCK_EX)
+        return self
+    def __exit__(self, *a):
+        import fcntl
+        fcntl.flock(self.f, fcntl.LOCK_UN)
+        self.f.close()
+
+
+def run_suites(*args, **kwargs):
+    with _lane_lock():
+        return _run_suites_unlocked(*args, **kwargs)
 
 
 if __name__ == '__main__':
